@@ -97,6 +97,50 @@ def gen_pax_cases(rng, tier):
         yield Case(f'paxrec-{r}', ops)
 
 
+def pax_record(key, val):
+    """`len key=value\\n` with the self-referential decimal length."""
+    body = b' ' + key + b'=' + val + b'\n'
+    n = len(body) + 1
+    while len(str(n)) + len(body) != n:
+        n = len(str(n)) + len(body)
+    return str(n).encode() + body
+
+
+def gen_paxbody_cases(rng, tier):
+    """Extended-header bodies for the reader's record loop: well-formed sequences of records with arbitrary
+    value bytes (newlines, '=', NUL), keys up to the 512-byte look-ahead, unknown keys, and every malformed
+    variant of each body (cut short, length off by one, newline replaced, first '=' removed)."""
+    reps = 4 if tier == 'quick' else 40
+    for r in range(reps):
+        ops = []
+        for _ in range(8):
+            recs = []
+            for k in range(rng.choice([0, 1, 2, 5])):
+                if rng.random() < 0.75:
+                    name = bytes(rng.choice(b'abcXYZ.-_%/ ') for _ in range(rng.choice([1, 2, 10, 60, 127, 128, 128, 129 if rng.random() < 0.2 else 100])))
+                    key = b'SCHILY.xattr.' + name
+                else:       # a key the reader does not know, up to what the 512-byte look-ahead holds
+                    key = b'verif.' + bytes(rng.choice(b'abcXYZ.-_%/ ') for _ in range(rng.choice([1, 40, 200, 480, 487, 495])))
+                vl = rng.choice([0, 1, 2, 8, 80, 85, 86, 87, 95, 500, 985, 990, 3000])
+                val = bytes(rng.choice([10, 61, 0, 32, 48, 255, 97]) if rng.random() < 0.5 else rng.randrange(256) for _ in range(vl))
+                recs.append(pax_record(key, val))
+            body = b''.join(recs)
+            ops.append(f'paxbody {hx(body)}')
+            if body:
+                for how in ('cut', 'len+1', 'nonl', 'noeq'):
+                    m = bytearray(body)
+                    if how == 'cut':
+                        m = m[:rng.randrange(1, len(m))]
+                    elif how == 'len+1':
+                        m[0] = 48 + (m[0] - 48 + 1) % 10
+                    elif how == 'nonl':
+                        m[-1] = 32
+                    else:
+                        m = bytearray(m.replace(b'=', b':', 1))
+                    ops.append(f'paxbody {hx(bytes(m))}')
+        yield Case(f'paxbody-{r}', ops)
+
+
 def gen_atol_cases(rng, tier):
     reps = 2 if tier == 'quick' else 40
     for r in range(reps):
@@ -110,6 +154,7 @@ def gen_atol_cases(rng, tier):
 # whole-archive cases
 
 BYTE_FMTS = ['ustar', 'odc', 'newc']                     # byte-exact Lean model
+AR_FMTS = ['arbsd', 'arsvr4']                            # byte-exact Lean model too (LA.Model.Ar), own state machine
 SPEC_FMTS = ['pax', 'paxr', 'gnutar', 'v7tar', 'bin', 'pwb', 'arbsd', 'arsvr4', 'zip', '7zip', 'xar',
              'iso9660', 'mtree', 'warc']                  # spec-level (representable / norm) only
 ALL_FMTS = BYTE_FMTS + SPEC_FMTS
@@ -242,7 +287,7 @@ def gen_c10_cases(rng, tier):
     for fmt in ALL_FMTS * (1 if tier == 'quick' else 3):       # thorough: three rounds with fresh neighbours / block sizes
         probes = c10_probes(rng, fmt)
         if tier == 'quick' and fmt not in BYTE_FMTS:
-            probes = [p for p in probes if rng.random() < 0.3]
+            probes = [p for p in probes if rng.random() < (0.6 if fmt in AR_FMTS else 0.3)]
         for lbl, d, big in probes:
             a, b = good_entry(rng, fmt, 0), good_entry(rng, fmt, 2)
             if big and fmt in SPOOLING:
@@ -351,7 +396,7 @@ def c02_entry(rng, fmt, k, prev_regs):
         n = rng.choice([1, 10, 98, 99] + ([100] if fmt != 'v7tar' else []) + ([101, 300] if fmt in ('pax', 'gnutar', 'zip', '7zip', 'odc', 'newc', 'mtree', 'xar') else []))
         d['sym'] = hx(('t' * n))
     if typ in ('chr', 'blk'):
-        mx = {'ustar': 262143, 'gnutar': 262143, 'odc': 255, 'bin': 255, 'pwb': 255}.get(fmt, 2 ** 20)
+        mx = {'ustar': 262143, 'gnutar': 262143, 'odc': 1023, 'bin': 255, 'pwb': 255}.get(fmt, 2 ** 20)
         d['rdevmajor'] = str(rng.choice([0, 1, 8, 255, mx])); d['rdevminor'] = str(rng.choice([0, 3, 255, mx if fmt not in ('odc',) else 255]))
     return add_extras(rng, fmt, d)
 
@@ -362,7 +407,7 @@ FILTERS = ['gzip', 'bzip2', 'xz', 'zstd', 'lz4', 'compress', 'uuencode', 'b64enc
 def gen_c02_cases(rng, tier):
     per = {'quick': 18, 'thorough': 400}[tier]
     for fmt in ALL_FMTS:
-        n = per * (3 if fmt in BYTE_FMTS else 1)
+        n = per * (3 if fmt in BYTE_FMTS + AR_FMTS else 1)
         for i in range(n):
             ents, regs = [], []
             for k in range(rng.choice([1, 1, 2, 3, 5])):
@@ -710,6 +755,7 @@ class Codec(Engine):
             yield from gen_fmt_cases(rng, tier)
             yield from gen_atol_cases(rng, tier)
             yield from gen_pax_cases(rng, tier)
+            yield from gen_paxbody_cases(rng, tier)
         import itertools
         if self.mode == 'c02':
             for c in itertools.chain(gen_c02_cases(rng, tier), gen_meta_cases(rng, tier, 'c02')):
@@ -766,7 +812,7 @@ class Codec(Engine):
         return None if v == 'ok' else v
 
     def nontrivial(self, case, impl):
-        return any('r=-1' in l or 'v=' in l or 'h=' in l for l in impl)
+        return any('r=-1' in l or 'v=' in l or 'h=' in l or 'st=' in l for l in impl)
 
     def stats(self, cases, impl):
         st = {'ops': {}, 'fmt_overflow': 0, 'fmt_ok': 0}
